@@ -328,10 +328,8 @@ UPGRADER:
 			return ErrInvalidHTTPStatus
 		case stateStatus:
 			switch c {
-			case ' ':
-				if p.status == "" {
-					p.status = string(data[start:i])
-				}
+			case '\n':
+				return ErrCRExpected
 			case '\r':
 				if p.status == "" {
 					p.status = string(data[start:i])
